@@ -19,6 +19,7 @@ import (
 	"path/filepath"
 	"runtime"
 	"runtime/debug"
+	"runtime/metrics"
 	"sort"
 	"strconv"
 	"strings"
@@ -56,8 +57,8 @@ type Spec struct {
 	// MaxConfirm caps how many fresh violations are re-executed 5x in fresh
 	// processes before being reported (0 = 25); the rest are reported as found.
 	MaxConfirm int
-	// MemLimitMB, when > 0, is applied to workers via debug.SetMemoryLimit
-	// plus RLIMIT_AS through the shell wrapper.
+	// MemLimitMB, when > 0, starts a watchdog in workers and replays that ends
+	// the process when the case under execution holds more live heap.
 	MemLimitMB int
 }
 
@@ -312,10 +313,37 @@ func envOr(k, d string) string {
 	return d
 }
 
-func doWorker(spec *Spec, tier string, seed int64, i, n int, out, work string) {
-	if spec.MemLimitMB > 0 {
-		debug.SetMemoryLimit(int64(spec.MemLimitMB) << 20)
+// memoryWatchdog ends the process when the live heap stays above the limit
+// after a forced collection, i.e. when the case under execution itself holds
+// that much memory (garbage of earlier cases is collected first, so the verdict
+// does not depend on the worker's history).  A runaway allocation in the code
+// under test thereby becomes a reproducible "worker died" violation instead of
+// an out-of-memory kill of unrelated processes.
+func memoryWatchdog(limitMB int) {
+	if limitMB <= 0 {
+		return
 	}
+	debug.SetMemoryLimit(int64(limitMB) << 20)
+	limit := uint64(limitMB) << 20
+	sample := []metrics.Sample{{Name: "/memory/classes/heap/objects:bytes"}}
+	go func() {
+		for {
+			time.Sleep(5 * time.Millisecond)
+			metrics.Read(sample)
+			if sample[0].Value.Uint64() > limit {
+				runtime.GC()
+				metrics.Read(sample)
+				if sample[0].Value.Uint64() > limit {
+					fmt.Fprintf(os.Stderr, "fatal error: memory limit of %d MB exceeded by the case under execution (live heap %d MB)\n", limitMB, sample[0].Value.Uint64()>>20)
+					os.Exit(97)
+				}
+			}
+		}
+	}()
+}
+
+func doWorker(spec *Spec, tier string, seed int64, i, n int, out, work string) {
+	memoryWatchdog(spec.MemLimitMB)
 	c := newCtx(spec, tier, seed, i, n, work)
 	c.guardPath = out + ".guard"
 	t0 := time.Now()
@@ -356,6 +384,7 @@ func doReplay(spec *Spec, tier string, seed int64, path string, quiet bool, work
 		fmt.Fprintln(os.Stderr, "replay file:", err)
 		return 2
 	}
+	memoryWatchdog(spec.MemLimitMB)
 	c := newCtx(spec, tier, seed, 0, 1, work)
 	c.Deadline = time.Now().Add(10 * time.Minute)
 	var msg string
@@ -488,13 +517,7 @@ func doParent(spec *Spec, tier string, seed int64, work string) int {
 			defer wg.Done()
 			outp := filepath.Join(dir, fmt.Sprintf("s%d", i))
 			args := []string{"-tier", tier, "-worker", fmt.Sprintf("%d/%d", i, n), "-out", outp}
-			var cmd *exec.Cmd
-			if spec.MemLimitMB > 0 {
-				sh := fmt.Sprintf("ulimit -v %d; exec \"$0\" \"$@\"", (spec.MemLimitMB+2048)*1024)
-				cmd = exec.Command("bash", append([]string{"-c", sh, self}, args...)...)
-			} else {
-				cmd = exec.Command(self, args...)
-			}
+			cmd := exec.Command(self, args...)
 			cmd.Env = append(os.Environ(), "GOMAXPROCS=2")
 			var eb bytes.Buffer
 			cmd.Stderr = &eb
@@ -657,7 +680,8 @@ func doParent(spec *Spec, tier string, seed int64, work string) int {
 		fails := 0
 		for k := 0; k < 5; k++ {
 			cctx, cancel := context.WithTimeout(context.Background(), 180*time.Second)
-			cmd := exec.CommandContext(cctx, self, "-tier", tier, "-replay", p, "-quiet-replay")
+			rargs := []string{"-tier", tier, "-replay", p, "-quiet-replay"}
+			cmd := exec.CommandContext(cctx, self, rargs...)
 			cmd.Env = os.Environ()
 			err := cmd.Run()
 			cancel()
@@ -670,7 +694,7 @@ func doParent(spec *Spec, tier string, seed int64, work string) int {
 			confirmed = append(confirmed, v)
 			paths = append(paths, p)
 		case 0:
-			fmt.Fprintf(os.Stderr, "HARNESS-ERROR: violation %q did not reproduce in 5 fresh replays (nondeterminism in the harness?)\n", v.Key)
+			fmt.Fprintf(os.Stderr, "HARNESS-ERROR: violation %q did not reproduce in 5 fresh replays (nondeterminism in the harness?)\n  %s\n  case: %s\n", v.Key, firstLine(v.Msg, 1500), firstLine(string(v.Case), 600))
 			flaky++
 			os.Remove(p)
 		default:
